@@ -74,6 +74,11 @@ Accept(e) ==
             /\ otherSame /\ b.fwd = <<>> /\ Len(b.pool) = Len(a.pool) + n /\ e.rc = 0
             /\ b.siz = (IF e.a1 = 0 THEN 1 ELSE e.a1)
        [] OTHER -> FALSE
+  \* element destructor callbacks.  The queue owns the storage of parked nodes as well as of enqueued ones, and the
+  \* destructor is the caller's hook for that storage: emptying the queue (drop, element-size change) hands every node it
+  \* owns - enqueued or parked - to the destructor exactly once, and so does destroying the queue afterwards ("final")
+  /\ ("dtor" \in DOMAIN e => e.ndtor = Len(e.dtor) /\ SetOf(e.dtor) = Ids(a.fwd) \cup poolA /\ Len(e.dtor) = Len(a.fwd) + Len(a.pool))
+  /\ ("final" \in DOMAIN e => e.nfinal = Len(e.final) /\ SetOf(e.final) = Ids(b.fwd) \cup poolB /\ Len(e.final) = Len(b.fwd) + Len(b.pool))
 
 TraceInit == l = 1
 Step == /\ l <= Len(Tr)
